@@ -38,7 +38,9 @@ func stackOffsets(ops []solidG) (offs []float64, tops []float64) {
 func stackSection(r *vlib.Run, k *kit, nCases int) {
 	const T = "3d.stack."
 	keys := [2]string{"model3d.StackSolids/translated-union", "model3d.StackedSolid.Contains/translated-union"}
-	r.Section("stack", nCases, vlib.SectionOpts{}, func(c *vlib.Case) {
+	r.Section("stack", nCases, vlib.SectionOpts{}, func(c0 *vlib.Case) {
+		c := newCase(c0)
+		defer c.flush()
 		rng := c.Rng
 		exact := rng.Intn(3) != 0
 		b := &builder{k: k, rng: rng, dyadic: exact}
@@ -136,6 +138,11 @@ func stackSection(r *vlib.Run, k *kit, nCases int) {
 				if e.oob != nil {
 					undec = "operand-contains-outside-own-bounds"
 					break
+				}
+				// a nested operand that is itself wrong at y is reported under its
+				// own key, not as a stacking defect
+				if !checkTree(c, k, e, o, y, T, map[*node]bool{}) {
+					return
 				}
 				if v {
 					want = true
